@@ -89,14 +89,15 @@ func (t *SymbolTable) Index(s string) uint64 {
 }
 
 func (t *SymbolTable) Str(sym String) string {
-	if int(sym) < 1024 {
-		if int(sym) > len(DEFAULT_SYMBOLS)-1 {
+	// compare as unsigned: an index above MaxInt64 must not wrap to a negative int
+	if uint64(sym) < 1024 {
+		if uint64(sym) > uint64(len(DEFAULT_SYMBOLS)-1) {
 			return fmt.Sprintf("<invalid symbol %d>", sym)
 		} else {
 			return DEFAULT_SYMBOLS[int(sym)]
 		}
 	}
-	if int(sym)-1024 > len(*t)-1 {
+	if uint64(sym)-1024 >= uint64(len(*t)) {
 		return fmt.Sprintf("<invalid symbol %d>", sym)
 	}
 	return (*t)[int(sym)-1024]
